@@ -6,7 +6,8 @@ Engine.price_with_constant_mc_paths_and_level, closed by the scripted coupling o
 Alphabet  environment answer per (level, batch): the statistical regime of the samples of that batch
           (default / zero variance / large variance / zero mean / persistent mean), which steers the adaptive loop through
           "add samples", "within 1 %", "converged", "add level", "maximum level reached", "no sample asked for".
-Bound     all choice sequences with at most D deviations from the default regime (D = 2 quick, 3 thorough) for every
+Bound     all choice sequences with at most D deviations from the default regime (D <= 1 on every configuration, <= 2 on a
+          stated sub-lattice, <= 3 in thorough on four configurations; see cases()) for every
           configuration of the lattice {initial_level, maximum_level, initial_mc_paths, rmse, rates given/regressed,
           control variates none/one, payoff scalar/2-vector, discount factor, notional}; horizon 40 batches per level.
 Options   nb_of_processes in {1, 2, 3, None}: for every value but 1 the engine takes its multiprocessing branch
